@@ -93,6 +93,7 @@ func (socket *ftpActiveSocket) Close() error {
 
 type ftpPassiveSocket struct {
 	conn      net.Conn
+	listener  net.Listener
 	port      int
 	host      string
 	ingress   chan []byte
@@ -140,6 +141,11 @@ func (socket *ftpPassiveSocket) Write(p []byte) (n int, err error) {
 }
 
 func (socket *ftpPassiveSocket) Close() error {
+	// also when the client never connected: stop listening, which ends
+	// the goroutine waiting in Accept
+	if socket.listener != nil {
+		socket.listener.Close()
+	}
 	if socket.conn != nil {
 		return socket.conn.Close()
 	}
@@ -175,8 +181,12 @@ func (socket *ftpPassiveSocket) GoListenAndServe(sessionid string) (err error) {
 		listener = tls.NewListener(listener, socket.tlsConfig)
 	}
 
+	socket.listener = listener
+
 	go func() {
 		conn, err := listener.Accept()
+		// one data connection per passive socket
+		listener.Close()
 		socket.wg.Done()
 		if err != nil {
 			socket.err = err
